@@ -21,7 +21,8 @@ RULE = ('differential against reference codecs written from the PICO-8 format de
         'distinct by content hash.'
         ' Carts of format png_then_p8 / p8_then_png save ONE cart object in both formats in sequence (first format once more at the end): both files must hold the cart by the format descriptions and the cart object must be unchanged. Reference-written .p8.png inputs and label files come in image-tool flavours (interlaced, filtered, split IDAT, ancillary chunks).'
         ' A quarter of the reference-written .p8 files have no line terminator after their last row.'
-        ' After loading, map.get_cell is compared with cart memory on 24 cells of both map halves (rows 32-63 live in sprite memory); reference .p8 files may keep the header line of a section that has no rows.')
+        ' After loading, map.get_cell is compared with cart memory on 24 cells of both map halves (rows 32-63 live in sprite memory); reference .p8 files may keep the header line of a section that has no rows.'
+        ' Versions include 0; labels include the all-black one; elided files may end with the last sfx row.')
 ASSUMPTIONS = ['reference codecs follow the published P8FileFormat / P8PNGFileFormat / memory-map descriptions; '
                'they agree with picotool on the PICO-8-written carts in tests/testdata',
                'the .p8 music line cannot carry bit 7 of the 4th channel byte (stated in the property set, C03)']
